@@ -29,6 +29,16 @@ def St.updCtx (s : St) (f : Ctx → Ctx) : St :=
   | some c => { s with ctx := some (f c) }
   | none => s
 
+/-- update the context object with identity `id` (a module's own context: `mod->ctx`); once that
+context was released it is only a piece of memory kept alive by its zombie modules -/
+def St.updCtxId (s : St) (id : Nat) (f : Ctx → Ctx) : St :=
+  match s.ctx with
+  | some c => if c.id == id then { s with ctx := some (f c) }
+              else { s with deadCtx := s.deadCtx.map fun d => if d.id == id then f d else d }
+  | none => { s with deadCtx := s.deadCtx.map fun d => if d.id == id then f d else d }
+
+def St.ctxIdOf (s : St) (m : ModId) : Nat := match s.mods[m]? with | some md => md.ctxId | none => 0
+
 def St.emit (s : St) (o : Out) : St := { s with out := s.out ++ [o] }
 
 def stateIs (s : St) (m : ModId) (x : MState) : Bool :=
@@ -208,18 +218,25 @@ def removeSrc (s : St) (m : ModId) (i : SrcId) : St :=
 
 /-! ## Callbacks around hooks and handlers (mod.c `optional_hook`, ps.c `call_pubsub_cb`) -/
 
-def setCurr (m : Option ModId) (s : St) : St := s.updCtx fun c => { c with currMod := m }
-
 def currOf (s : St) : Option ModId := match s.ctx with | some c => c.currMod | none => none
+
+/-- `mod->ctx->curr_mod = x` -/
+def setCurrOf (m : ModId) (x : Option ModId) (s : St) : St := s.updCtxId (s.ctxIdOf m) fun c => { c with currMod := x }
+
+/-- `mod->ctx->curr_mod` -/
+def currOfMod (s : St) (m : ModId) : Option ModId :=
+  match s.ctx with
+  | some c => if c.id == s.ctxIdOf m then c.currMod else ((s.deadCtx.find? (·.id == s.ctxIdOf m)).bind (·.currMod))
+  | none => ((s.deadCtx.find? (·.id == s.ctxIdOf m)).bind (·.currMod))
 
 /-- the context a module's callbacks update is the module's own one; with one context per thread
 that is the thread's context as long as it exists -/
 def optionalHook (m : ModId) (cb : Cb) (present : Bool) : Prog Int := do
   let s ← getSt
-  let outer := currOf s
-  modify (setCurr (some m))
+  let outer := currOfMod s m
+  modify (setCurrOf m (some m))
   let b ← if present then callCb cb m else pure true
-  modify (setCurr outer)
+  modify (setCurrOf m outer)
   let s ← getSt
   -- on_stop's result is ignored by the C code (`bool_ret` stays true)
   let b := match cb with | .stop => true | _ => b
@@ -233,14 +250,14 @@ def destroyEvts (s : St) (evts : List Evt) (keep : List Evt) : St :=
 def callPubsubCb (m : ModId) (evts : List Evt) : Prog Unit := do
   if evts.isEmpty then pure () else do
     let s ← getSt
-    let outer := currOf s
-    modify (setCurr (some m))
+    let outer := currOfMod s m
+    modify (setCurrOf m (some m))
     let h := match s.mods[m]? with
       | some md => md.recvs.headD 0
       | none => 0
     let _ ← callCb (.evt h) m evts
     modify fun s => (s.updMod m fun md => { md with recv := md.recv + evts.length })
-    modify (setCurr outer)
+    modify (setCurrOf m outer)
     -- events the handler stashed hold their own reference and survive
     modify fun s =>
       let keep := match s.mods[m]? with | some md => md.stash | none => []
@@ -294,6 +311,11 @@ def manageSrcsAdd (s : St) (m : ModId) : St :=
     let s1 := s.updMod m fun md => { md with pipePolled := md.pipe.isSome }
     md.srcs.foldl (fun s i => s.updSrc i fun x => { x with polled := true }) s1
 
+/-- the fields `reset_module` clears -/
+def Mod.reset (md : Mod) : Mod :=
+  { md with pipe := none, subs := [], recvs := [], stash := [], batch := [],
+            batchLen := 0, batchInf := false, batchTimer := 0, tb := none, tbTimer := 0 }
+
 /-- `reset_module` -/
 def resetModule (s : St) (m : ModId) : St :=
   match s.mods[m]? with
@@ -303,14 +325,13 @@ def resetModule (s : St) (m : ModId) : St :=
     let s2 := md.subs.foldl (fun s i => removeSrc s m i) s1
     let s3 := destroyEvts s2 md.stash []
     let s4 := destroyEvts s3 md.batch []
-    s4.updMod m fun md => { md with pipe := none, subs := [], recvs := [], stash := [], batch := [],
-                                    batchLen := 0, batchInf := false, batchTimer := 0, tb := none, tbTimer := 0 }
+    s4.updMod m Mod.reset
 
 /-- `stop(mod, stopping)` -/
 def stopP (m : ModId) (stopping : Bool) : Prog Int := do
   modify fun s => manageSrcsRm s m stopping
   modify fun s =>
-    let s1 := if stateIs s m .running then s.updCtx fun c => { c with running := c.running - 1 } else s
+    let s1 := if stateIs s m .running then s.updCtxId (s.ctxIdOf m) fun c => { c with running := c.running - 1 } else s
     setState s1 m (if stopping then .stopped else .paused)
   let s ← getSt
   let hasStop := match s.mods[m]? with | some md => md.hooks.stop | none => false
@@ -328,7 +349,7 @@ def startP (m : ModId) (starting : Bool) : Prog Int := do
   -- init_pubsub_fd: a fresh pipe and its internal source
   if starting then modify fun s => s.updMod m fun md => { md with pipe := some [] }
   modify fun s => manageSrcsAdd s m
-  modify fun s => setState (s.updCtx fun c => { c with running := c.running + 1 }) m .running
+  modify fun s => setState (s.updCtxId (s.ctxIdOf m) fun c => { c with running := c.running + 1 }) m .running
   let s ← getSt
   let hasStart := match s.mods[m]? with | some md => md.hooks.start | none => false
   let ret ← if starting then optionalHook m .start hasStart else pure 0
@@ -396,12 +417,9 @@ def modDeregCore (autoRelease : Prog Int) (m : ModId) : Prog Int := do
     | some md, some c =>
       if md.flags.persist && c.state == .looping then pure EPERM
       else
-        -- m_map_remove(c->modules, m->name): by *name*
-        if s.tableLen = 0 then pure EINVAL
-        else match s.modByName md.name with
-        | none => pure ENOENT
-        | some victim => do
-          modify fun s => s.updMod victim fun x => { x with inCtx := false }
+        if s.modByName md.name != some m then pure ENOENT   -- already out of its context
+        else do
+          modify fun s => s.updMod m fun x => { x with inCtx := false }
           let _ ← stopP m true
           modify fun s => setState s m .zombie
           let s ← getSt
@@ -771,14 +789,20 @@ def apiTokenBucket (m : ModId) (rate burst : Nat) : Prog Int :=
           let (s', r) := addSrc s m { kind := .tmr, owner := m, key := BILLION / rate, prio := .high, role := .tbTimer }
           setSt s'; pure r
 
+/-- a fresh payload holder with one reference (held by `send_msg` itself) -/
+def newHolder (s : St) (payload : Nat) : St :=
+  { s with holders := s.holders ++ [1], holderPayload := s.holderPayload ++ [payload] }
+
 /-- `send_msg` -/
 def sendMsg (s : St) (m : ModId) (recipient : Option ModId) (topic : Option String) (payload : Nat) (af : Bool) : St :=
   let s1 := s.updMod m fun md => { md with sent := md.sent + 1 }
-  let (s2, h) := if af then
-      ({ s1 with holders := s1.holders ++ [1], holderPayload := s1.holderPayload ++ [payload] }, some s1.holders.length)
-    else (s1, none)
-  let s3 := tellPubsub s2 { sender := some m, topic := topic, payload := payload, sys := false, holder := h, sub := none } recipient
-  holderUnref s3 h
+  if af then
+    -- the payload holder: one reference held here until every copy was handed out
+    let h := s1.holders.length
+    holderUnref (tellPubsub (newHolder s1 payload)
+      { sender := some m, topic := topic, payload := payload, sys := false, holder := some h, sub := none } recipient) (some h)
+  else
+    tellPubsub s1 { sender := some m, topic := topic, payload := payload, sys := false, holder := none, sub := none } recipient
 
 def sameCtx (s : St) (m r : ModId) : Bool :=
   match s.mods[m]?, s.mods[r]? with
@@ -1005,7 +1029,7 @@ def apiDispatch : Prog Int := do
   match mctx s with
   | none => pure EPIPE
   | some c =>
-    if c.state == .idle then loopStartP
+    if c.state == .idle then (if c.destroying then pure EINVAL else loopStartP)
     else if c.quit || c.running = 0 then loopStopP
     else do
       let b ← nextBatch
@@ -1032,6 +1056,7 @@ def apiLoop : Prog Int := do
   | none => pure EPIPE
   | some c =>
     if c.state != .idle then pure EINVAL
+    else if c.destroying then pure EINVAL
     else do
       let _ ← loopStartP
       let s ← getSt
